@@ -444,7 +444,7 @@ func (p *JoinAcceptPayload) UnmarshalBinary(uplink bool, data []byte) error {
 	if err := p.DLSettings.UnmarshalBinary(data[10:11]); err != nil {
 		return err
 	}
-	p.RXDelay = uint8(data[11])
+	p.RXDelay = uint8(data[11]) & 0x0f // bits 7..4 are RFU
 
 	p.CFList = nil
 	if l == 28 {
